@@ -59,7 +59,7 @@ func (l c18Layer) build(pos int) fstest.MapFS {
 	m := fstest.MapFS{}
 	mt := time.Date(2020, 1, 1+pos, 0, 0, 0, 0, time.UTC)
 	file := func(p string) {
-		m[p] = &fstest.MapFile{Data: []byte(fmt.Sprintf("L%d:%s", pos, p)), ModTime: mt, Mode: 0o644}
+		m[p] = &fstest.MapFile{Data: []byte(fmt.Sprintf("L%d:%s%s", pos, p, strings.Repeat("+", pos))), ModTime: mt, Mode: 0o644}
 	}
 	dir := func(p string) { m[p] = &fstest.MapFile{Mode: fs.ModeDir | 0o755, ModTime: mt} }
 	if l.A == "f" {
@@ -92,12 +92,52 @@ func (l c18Layer) build(pos int) fstest.MapFS {
 
 type c18Case struct {
 	Layers []int `json:"layers"` // index into the layer table, -1 = nil layer
+	// Wide, when set, replaces the layer table: a directory "w" with N entries spread over
+	// NL layers by Pattern (listings long enough to leave any small-input path of a sort)
+	Wide *c18Wide `json:"wide,omitempty"`
+}
+
+type c18Wide struct {
+	N       int    `json:"n"`
+	NL      int    `json:"nl"`
+	Pattern string `json:"pattern"` // all | alt | mod3 | dirs
+}
+
+// in reports whether entry i of a wide directory exists in layer pos
+func (w *c18Wide) in(i, pos int) bool {
+	switch w.Pattern {
+	case "alt":
+		return pos == 0 && i%2 == 0 || pos > 0
+	case "mod3":
+		return i%3 != pos%3
+	}
+	return true
+}
+
+func (w *c18Wide) build(pos int) fstest.MapFS {
+	m := fstest.MapFS{}
+	mt := time.Date(2021, 1, 1+pos, 0, 0, 0, 0, time.UTC)
+	m["w"] = &fstest.MapFile{Mode: fs.ModeDir | 0o755, ModTime: mt}
+	for i := 0; i < w.N; i++ {
+		if !w.in(i, pos) {
+			continue
+		}
+		p := fmt.Sprintf("w/p%02d", i)
+		if w.Pattern == "dirs" && i%4 == 3 {
+			m[p] = &fstest.MapFile{Mode: fs.ModeDir | 0o755, ModTime: mt}
+			m[p+"/k"] = &fstest.MapFile{Data: []byte("k"), ModTime: mt, Mode: 0o644}
+			continue
+		}
+		m[p] = &fstest.MapFile{Data: []byte(fmt.Sprintf("L%d:%s%s", pos, p, strings.Repeat("+", pos))), ModTime: mt, Mode: 0o644}
+	}
+	return m
 }
 
 func (c *c18Case) Key() string { return core.KeyOf(c) }
 
 var c18Paths = []string{"a", "d", "d/x", "d/y", "e", "zz", "d/zz", "e/zz", "d-z/x", "d-z"}
 var c18Dirs = []string{".", "d", "e", "zz", "d-z"}
+var c18WideDirs = []string{".", "w", "zz"}
 var c18Globs = []string{"*", "d/*", "*/x", "?", "*/*", "["}
 
 type c18Model struct {
@@ -160,6 +200,15 @@ func (c *c18Case) Run(ctx *core.Ctx) {
 	var stack []fs.FS
 	m := &c18Model{}
 	nils := 0
+	dirs, paths, globs := c18Dirs, c18Paths, c18Globs
+	if c.Wide != nil {
+		dirs, paths, globs = c18WideDirs, []string{"w/p00", "w/p01", "w/p02", fmt.Sprintf("w/p%02d", c.Wide.N-1), "w/zz"}, []string{"w/*", "*/p0?"}
+		for pos := 0; pos < c.Wide.NL; pos++ {
+			l := c.Wide.build(pos)
+			stack = append(stack, l)
+			m.layers = append(m.layers, l)
+		}
+	}
 	for pos, li := range c.Layers {
 		if li < 0 {
 			stack = append(stack, nil)
@@ -180,7 +229,7 @@ func (c *c18Case) Run(ctx *core.Ctx) {
 	}
 
 	// --- files: ReadFile / Stat
-	for _, p := range c18Paths {
+	for _, p := range paths {
 		ctx.Eval(2)
 		var first fs.FS
 		for _, l := range m.layers {
@@ -227,7 +276,7 @@ func (c *c18Case) Run(ctx *core.Ctx) {
 	}
 
 	// --- directories
-	for _, d := range c18Dirs {
+	for _, d := range dirs {
 		ctx.Eval(1)
 		pat := m.pattern(d) + nilTag
 		want, wok, zone := m.readDir(d)
@@ -236,7 +285,7 @@ func (c *c18Case) Run(ctx *core.Ctx) {
 			continue
 		}
 		got, err := o.ReadDir(d)
-		if len(m.layers) == 0 {
+		if len(m.layers) == 0 && d == "." {
 			// pinned by TestOverlayFSReadDir_AllFSNil: an overlay of only nil layers lists nothing, without error
 			ctx.Zone("root-of-empty-stack")
 			continue
@@ -261,11 +310,37 @@ func (c *c18Case) Run(ctx *core.Ctx) {
 		if g := names(got); strings.Join(g, ",") != strings.Join(want, ",") {
 			ctx.Violation("readdir", "present:"+pat, "wrong-listing", fmt.Sprintf("ReadDir(%q) = %v; want %v", d, g, want))
 		}
+		// every entry describes the file of the first layer that has it (an upper entry shadows a lower one)
+		for _, e := range got {
+			p := e.Name()
+			if d != "." {
+				p = d + "/" + p
+			}
+			var wfi fs.FileInfo
+			for _, l := range m.layers {
+				if fi, err := fs.Stat(l, p); err == nil {
+					wfi = fi
+					break
+				}
+			}
+			gfi, ierr := e.Info()
+			if wfi == nil || ierr != nil {
+				continue
+			}
+			if gfi.Size() != wfi.Size() || !gfi.ModTime().Equal(wfi.ModTime()) || gfi.Mode() != wfi.Mode() || e.IsDir() != wfi.IsDir() {
+				where := "present:" + pat
+				if c.Wide != nil {
+					where = "wide:" + c.Wide.Pattern
+				}
+				ctx.Violation("readdir", where, "entry-from-lower-layer", fmt.Sprintf("ReadDir(%q) entry %s = {%d %v %v}; the first layer that has it says {%d %v %v}", d, e.Name(), gfi.Size(), gfi.Mode(), gfi.ModTime(), wfi.Size(), wfi.Mode(), wfi.ModTime()))
+				break
+			}
+		}
 		ctx.Outcome("ls:" + strings.Join(want, ","))
 	}
 
 	// --- glob
-	for _, g := range c18Globs {
+	for _, g := range globs {
 		ctx.Eval(1)
 		if g == "[" {
 			ctx.Zone("malformed-glob")
@@ -432,11 +507,12 @@ func init() {
 		ID:    "C18",
 		Level: "exploration",
 		Rule: "every stack of <=3 layers (nil layers in any position) over a layer table in which each of a, d, d/x, d/y, e is absent / file / (empty) directory, optionally with a sibling directory d-z (whose path sorts before d/ although its name sorts after d); " +
-			"per stack: ReadFile+Stat on 10 paths, ReadDir on 5 directories, 6 glob patterns, one WalkDir; compared with a reference union model. " +
+			"per stack: ReadFile+Stat on 10 paths, ReadDir on 5 directories (names, types and each entry's size/mode/mtime against the first layer that has it), 6 glob patterns, one WalkDir; compared with a reference union model; " +
+			"plus wide directories: 1..N entries spread over 2-3 layers in 4 membership patterns (listings beyond the small-input regime of the sort). " +
 			"non-trivial = stack with at least two non-nil layers; distinct = distinct layer-index vectors",
 		Bounds: map[string]string{
-			"quick":    "all stacks of <=2 layers over 48 layer configs + nil; 3-layer stacks over a 12-config subset + nil",
-			"thorough": "all stacks of <=3 layers over 48 layer configs + nil; 4-layer stacks over the 12-config subset + nil",
+			"quick":    "wide N<=20; all stacks of <=2 layers over 48 layer configs + nil; 3-layer stacks over a 12-config subset + nil",
+			"thorough": "wide N<=40; all stacks of <=3 layers over 48 layer configs + nil; 4-layer stacks over the 12-config subset + nil",
 		},
 		Assumptions: []string{"testing/fstest.MapFS is a correct fs.FS", "access below a name that is a file in an upper layer and a directory in a lower one is unconstrained"},
 		Decode:      core.DecodeAs[c18Case](),
@@ -455,6 +531,17 @@ func init() {
 				}
 				for _, i := range set {
 					rec(append(prefix, i), depth-1, set)
+				}
+			}
+			maxN := 20
+			if tier == "thorough" {
+				maxN = 40
+			}
+			for _, pat := range []string{"all", "alt", "mod3", "dirs"} {
+				for nl := 2; nl <= 3; nl++ {
+					for n := 1; n <= maxN; n++ {
+						emit(&c18Case{Wide: &c18Wide{N: n, NL: nl, Pattern: pat}})
+					}
 				}
 			}
 			rec(nil, 1, all)
